@@ -348,7 +348,7 @@ func TestC14(t *testing.T) {
 
 // TestC14Fanout: concurrent whole requests, reverse-DNS fan-outs and allocator callers under the race detector.
 func TestC14Fanout(t *testing.T) {
-	rec := NewRecorder("C14", "C14Fanout", "rapid under the race detector: RunTraceroute with 2..5 concurrent runs + 0..6 e2e probes over the simulated wire, reverse-DNS fan-out over 1..40 addresses with a scripted resolver, and concurrent allocator callers; oracle: zero race reports")
+	rec := NewRecorder("C14", "C14Fanout", "rapid under the race detector: RunTraceroute (half of the cases two requests at the same time on one Traceroute object) with 2..5 concurrent runs + 0..6 e2e probes over the simulated wire, reverse-DNS fan-out over 1..40 addresses with a scripted resolver, and concurrent allocator callers; oracle: zero race reports")
 	RunProp(t, rec, func(rt *rapid.T) *Request {
 		rq := &Request{}
 		rq.P = ReqParams{Hostname: "93.184.216.34", Port: 443, Protocol: oneOf(rt, "proto", "udp", "icmp", "tcp"), MinTTL: 1, MaxTTL: rapid.IntRange(2, 6).Draw(rt, "max"),
@@ -356,6 +356,10 @@ func TestC14Fanout(t *testing.T) {
 			ReverseDns: true, PublicIP: rapid.Bool().Draw(rt, "pubip")}
 		rq.Scripts = []FlowScript{{DestDist: oneOf(rt, "dest", 0, 3, 5), Default: HopSpec{DelayUs: 2000}}, {DestDist: 4, Default: HopSpec{DelayUs: 9000}}}
 		rq.DNSDefault = DNSScript{Names: []string{"x.example."}, DelayMs: oneOf(rt, "dns_delay", 0, 3)}
+		// two requests served by one process at the same time (they share the reverse-DNS cache and the fetcher)
+		if oneOf(rt, "two_requests", false, true) {
+			rq.Concurrent = 2
+		}
 		// the caller goes on reading the document it was handed while a slow public-IP answer is still on its way
 		rq.ReadAfter = true
 		if rq.P.PublicIP {
